@@ -321,7 +321,7 @@ func c03Recover(c *Ctx, entry *ssa.Function, rr *ReachResult) {
 	}
 	c.R.Analysed["may_panic_sites"] = len(sites)
 	c.R.Analysed["evaluator_reachable_functions"] = len(rr.Order)
-	c.R.Floor(rule, 40)
+	c.R.Floor(rule, 15)
 }
 
 func c03NoEscape(c *Ctx, entry *ssa.Function, rr *ReachResult) {
@@ -553,8 +553,8 @@ func c03Recursion(c *Ctx, entry *ssa.Function, d *Dispatcher, rr *ReachResult) {
 		}
 	}
 	c.R.Analysed["evaluator_loops"] = nl
-	c.R.Floor(rule, 12)
-	c.R.Floor("C03.bounded-loops", 8)
+	c.R.Floor(rule, 6)
+	c.R.Floor("C03.bounded-loops", 3)
 }
 
 // boundedLoop recognises counting loops, range loops and iterator loops.
